@@ -241,12 +241,10 @@ def run_probes(ctx):
     present = set()
     for f in ALL_FINDINGS:
         v = lenient.get("probe-" + f)
-        if v is None:
-            continue
-        if v[0] == "kf" and f in v[1]:
+        # a probe that P rejects outright is not one of the listed findings: it is judged (and reported)
+        # with the other cases below
+        if v is not None and v[0] == "kf" and f in v[1]:
             present.add(f)
-        else:
-            raise core.ToolError("probe %s behaves in an unexpected way: %s" % (f, v))
     return present, cs, res
 
 
@@ -259,7 +257,7 @@ def b3_configs(tier, fixed):
                                      MaxSteps=4, SockCap=1)),
             ("map bursts hold", consts("map", fixed, Settled=False, AllowHold=True, MaxCmd=2, MaxSet=1, MaxSteps=3, SockCap=1)),
             ("map settled hold", consts("map", fixed, Settled=True, AllowHold=True, AllowStop=True, MaxCmd=2, MaxSet=1, MaxSteps=4,
-                                         SockCap=1, InitLane="<- LaneM2")),
+                                         SockCap=1, KeySeq="<- Keys1")),
         ]
     return [
         ("value bursts", consts("value", fixed, Settled=False, AllowEmpty=True, AllowStop=True, MaxCmd=2, MaxSet=1,
@@ -280,10 +278,10 @@ def gen_configs(tier, fixed):
     for cap in ((0, 1) if q else (0, 1, 2)):
         out.append(("value cap%d exhaustive" % cap,
                     consts("value", fixed, SockCap=cap, AllowEmpty=True, AllowStop=(cap == 1), MaxCmd=2, MaxSet=1,
-                           MaxSteps=3 if q else 4), "bfs", 0))
+                           MaxSteps=3 if (q or cap == 2) else 4), "bfs", 0))
     out.append(("map cap1 exhaustive", consts("map", fixed, SockCap=1, AllowHold=True, MaxCmd=2, MaxSet=1, KeySeq="<- Keys1",
                                                MaxSteps=3 if q else 4, InitLane="<- LaneM1"), "bfs", 0))
-    n = 150 if q else 1500
+    n = 300 if q else 1000
     out.append(("value deep sim", consts("value", fixed, SockCap=1, AllowEmpty=True, AllowStop=True, AllowHold=True, OptSet="<- OptAll",
                                           MaxCmd=3, MaxSet=3, MaxSteps=14), "sim", n))
     out.append(("value cap0 deep sim", consts("value", fixed, SockCap=0, AllowEmpty=True, MaxCmd=4, MaxSet=2, MaxSteps=14), "sim", n))
@@ -295,11 +293,11 @@ def gen_configs(tier, fixed):
                                             MaxSteps=12), "sim", n))
     out.append(("map bursts sim", consts("map", fixed, Settled=False, SockCap=1, AllowHold=True, MaxCmd=3, MaxSet=2, MaxSteps=12,
                                           InitLane="<- LaneM2"), "sim", n))
-    if not q:
-        out.append(("value 3 consumers sim", consts("value", fixed, Consumers=core.Raw("{1, 2, 3}"), SockCap=2, AllowEmpty=True,
-                                                     AllowStop=True, OptSet="<- OptAll", MaxCmd=2, MaxSet=3, MaxSteps=16), "sim", n))
-        out.append(("map 3 consumers sim", consts("map", fixed, Consumers=core.Raw("{1, 2, 3}"), SockCap=2, AllowHold=True,
-                                                   AllowStop=True, MaxCmd=2, MaxSet=2, MaxSteps=16, InitLane="<- LaneM2"), "sim", n))
+    m = 150 if q else 1000
+    out.append(("value 3 consumers sim", consts("value", fixed, Consumers=core.Raw("{1, 2, 3}"), SockCap=2, AllowEmpty=True,
+                                                 AllowStop=True, OptSet="<- OptAll", MaxCmd=2, MaxSet=3, MaxSteps=16), "sim", m))
+    out.append(("map 3 consumers sim", consts("map", fixed, Consumers=core.Raw("{1, 2, 3}"), SockCap=2, AllowHold=True,
+                                               AllowStop=True, MaxCmd=2, MaxSet=2, MaxSteps=16, InitLane="<- LaneM2"), "sim", m))
     return out
 
 
@@ -333,11 +331,16 @@ def run(tier, out):
     states = transitions = 0
     cov = {}
     b3 = []
+    model_failures = []
     for name, c in b3_configs(tier, fixed):
         r = core.run_tlc("MC_DownlinkRuntime", cfgtext(c, INVS, view="MView"), os.path.join(wd, "b3_" + name.replace(" ", "_")),
                          workers=4, timeout=2400)
         if not r.ok:
-            raise core.ToolError("M violates P in TLC (%s %s) for %s:\n%s" % (r.status, r.violated, name, r.counterexample[:4000]))
+            # A counterexample on the model alone is never a verdict about the code: go on, the scripts below show
+            # whether the real runtime misbehaves (VIOLATION) or only M is out of date (tool error at the end).
+            model_failures.append("M violates P in TLC (%s %s) for %s:\n%s" % (r.status, r.violated, name, r.counterexample[:3000]))
+            core.log("[C07] B3 %s: TLC reports %s %s on the MODEL (deferred)" % (name, r.status, r.violated))
+            continue
         states += r.distinct
         transitions += r.generated
         merge_cov(cov, r)
@@ -354,7 +357,9 @@ def run(tier, out):
             r = core.run_tlc("MC_DownlinkRuntime", cfgtext(c, INVS, action_constraints=["DumpOnFinish"]), gwd, workers=1, timeout=2400,
                              simulate="num=%d" % n, extra=["-depth", "150", "-seed", str(core.seed() + gi)], coverage=False)
         if not r.ok:
-            raise core.ToolError("M violates P in TLC (%s %s) for %s:\n%s" % (r.status, r.violated, name, r.counterexample[:4000]))
+            model_failures.append("M violates P in TLC (%s %s) for %s:\n%s" % (r.status, r.violated, name, r.counterexample[:3000]))
+            core.log("[C07] generation %s: TLC reports %s %s on the MODEL (scripts printed so far are still run)" % (
+                name, r.status, r.violated))
         merge_cov(cov, r)
         reps = r.tagged.get("REPLAY", [])
         seen, cases = set(), []
@@ -373,6 +378,11 @@ def run(tier, out):
         if cases and len(out.cov["samples"]) < 4:
             s = cases[len(cases) // 2]
             out.sample({"config": name, "cfg": s["cfg"], "script_with_expected_outputs": s["acts"][:10]})
+    # the same scripts with consumer notification channels of a few bytes (the read task's sends complete piecemeal)
+    base = [c for (_, cs, _) in groups[1:] for c in cs]
+    small = [dict(c, id=c["id"] + "s", cfg=dict(c["cfg"], ccap=7)) for c in base[::(3 if tier == "quick" else 1)]]
+    groups.append(("small consumer channels", small, True))
+    gen.append({"config": "small consumer channels", "mode": "rerun", "scripts": len(small), "tlc_states": 0, "wall_s": 0})
     allc = [c for (_, cs, _) in groups[1:] for c in cs]
     t0 = time.time()
     res = rp.run_cases("h_runtime", "dlruntime", [strip(c) for c in allc], wd, tag="all", strip=False)
@@ -404,7 +414,7 @@ def run(tier, out):
                  "and validated against P by TLC",
             checker_cmd="tlc MC_DownlinkRuntime (INVARIANTS %s) + h_runtime dlruntime + tlc Trace_DownlinkSession" % " ".join(INVS))
     out.assumptions += [
-        "consumer channels are large (the read task never blocks in a send to a consumer); consumers drain continuously",
+        "consumers drain their notification channel continuously (channel sizes: 64 KiB and 7 bytes); a consumer that stops reading without dropping is not explored",
         "the remote lane behaves by the WARP protocol (linked before events, a snapshot then synced per sync request)",
         "the socket towards the remote holds a whole number of request frames (long node uri; see harness socket_capacity)",
         "environment interleavings are those the driver can induce between polls of the runtime task (bursts + quiescence); "
@@ -412,6 +422,12 @@ def run(tier, out):
     ]
     if never:
         out.notes.append("M actions never taken in this run: %s" % never)
+    if model_failures and not out.violations:
+        out.finish()
+        raise core.ToolError("the mechanism model M is out of date or wrong (the real runtime was accepted by P on every "
+                             "script):\n" + model_failures[0])
+    for m in model_failures[:2]:
+        out.notes.append("B3 counterexample on M (the real runtime is judged by the scripts): " + m[:600])
 
 
 def replay(path, out):
